@@ -7,7 +7,7 @@ from vlib.kaniprop import run_harnesses
 from props import c09, c11
 
 SLAB = ["c09_slab_get_addresses_physical_range", "c09_slab_pair_is_disjoint_and_in_bounds", "c09_slab_pair_same_symbol_panics",
-        "c09_slab_out_of_range_panics"]
+        "c09_slab_out_of_range_panics", "c12_slab_pair_bad_map_panics"]
 
 
 def run(ctx):
